@@ -28,7 +28,12 @@ pub fn run(ctx: &Ctx) {
     let curve = Curve::new(); let d = if ctx.quick() { 2 } else { 3 };
     let mut cases: Vec<(String, Tx)> = Vec::new();
     for (kind, wc, kn) in [(Kind::Legacy, false, "legacy-nochain"), (Kind::Legacy, true, "legacy-eip155"), (Kind::Eip2930, true, "eip2930"), (Kind::Eip1559, true, "eip1559")] { for (n, t) in variants(kind, wc, d) { cases.push((format!("{kn},dev={n}"), t)); } }
-    ctx.sweep("sign-hash-pipeline", &format!("every transaction with <= {d} deviating fields, 4 kinds, 2 accounts: `sign transaction --signature-only` output fed verbatim to `hash transaction --signature`, compared with Keccak-256 of what `sign transaction` prints and with the reference"), (cases.len() * 2) as u64, |i| {
+    // encodings of every size class: around 2^k bytes for k = 8..=17 (output buffers, chunked printing), calldata and access lists
+    for (kind, wc, kn) in [(Kind::Legacy, true, "legacy-eip155"), (Kind::Eip1559, true, "eip1559")] {
+        for k in 8..=17u32 { for delta in [-120i64, 0, 37] { let len = ((1i64 << k) + delta) as usize; let mut t = txjson::template(kind, wc); t.data = explore::filler_bytes(ctx.seed, 0xC15 + len as u64, len); cases.push((format!("{kn},calldata~2^{k}"), t)); } }
+        if kind != Kind::Legacy { for n in [40usize, 130, 300] { let mut t = txjson::template(kind, wc); t.access_list = (0..n).map(|i| ([i as u8; 20], vec![[i as u8; 32]; i % 3])).collect(); cases.push((format!("{kn},access-list-entries={n}"), t)); } }
+    }
+    ctx.sweep("sign-hash-pipeline", &format!("every transaction with <= {d} deviating fields plus encodings around 2^8..2^17 bytes (calldata, access lists), 4 kinds, 2 accounts: `sign transaction --signature-only` output fed verbatim to `hash transaction --signature`, compared with Keccak-256 of what `sign transaction` prints and with the reference"), (cases.len() * 2) as u64, |i| {
         let (shape, tx) = &cases[i as usize / 2]; let acct = (i % 2) as usize; let key = key_of(&curve, GANACHE, "", &default_path(acct as u32));
         let text = txjson::tx_json(tx, Spell::Auto).to_text(); let allow = tx.chain_id.is_none();
         let mk = |extra: &[&str]| { let mut c = Cmd::new(&["sign", "--mnemonic", GANACHE, "--account-index", &acct.to_string(), "transaction", "-"]).stdin(text.as_bytes()); for e in extra { c = c.arg(e); } if allow { c = c.arg("--allow-missing-relay-protection"); } c };
